@@ -13,7 +13,7 @@ ANCHOR_FILES = ["aw_datastore/datastore.py", "aw_datastore/storages/memory.py", 
                 "aw_datastore/storages/peewee.py"]
 REQUIRED_COUNTERS = ["steps.memory", "steps.sqlite", "steps.peewee", "missing_bucket_probes", "recreate_checks", "quiet_state_checks"]
 RULE = ("histories of 10-40 steps over a pool of 4-6 bucket ids (ASCII, unicode, spaces, quotes, %): create "
-        "(with/without name, data, explicit creation instant), update (random non-empty subset of fields), delete, "
+        "(with/without name, data, explicit creation instant), update (random non-empty subset of fields; a third of the updates re-send the current values or data that differs from the stored data only as 1 / true / 1.0), delete, "
         "re-create, lookup, metadata through fresh and stale handles, listing, event writes, and the same operations "
         "against ids that do not exist; after every step the listing's key set, every live bucket's metadata and "
         "event count are compared with a dict model - through API reads, or (half of the cases, 'quiet') through the writer "
@@ -57,6 +57,14 @@ def gen_case(rng, ctx):
             for f in rng.sample(["type_id", "client", "hostname", "name", "data"], rng.randrange(1, 6)):
                 fields[f] = {"k": rand_data(rng, 2), "n": 1} if f == "data" else _meta_vals(rng)
             st = dict(op="update", b=bid, fields=fields)
+            if rng.random() < 0.35:
+                # an update that looks like no change: the current values re-sent, or data that is equal to the stored
+                # data as Python objects but not as JSON (1 / true / 1.0, at any depth) - alone or next to a real change
+                st["like"] = rng.choice(["same", "retype", "retype"])
+                if rng.random() < 0.5:
+                    st["fields"] = {k: v for k, v in fields.items() if k != "data"}
+                else:
+                    st["fields"] = {}
         elif r < 0.52:
             st = dict(op="delete", b=bid)
         elif r < 0.7:
@@ -80,6 +88,33 @@ def gen_case(rng, ctx):
                       dict(op="create", b=rng.choice([bid, rng.randrange(len(pool))]), type="t2", client="c2", hostname="h2"),
                       dict(op="metadata", b=bid, stale=True)]
     return dict(backend=backend, pool=pool, steps=steps, quiet=rng.random() < 0.5)
+
+
+def _retype(x, changed=None):
+    """the same value as far as Python's == goes, another one as JSON: true <-> 1 <-> 1.0, at any depth"""
+    top = changed is None
+    changed = [False] if top else changed
+    if isinstance(x, bool):
+        changed[0] = True
+        out = int(x)
+    elif isinstance(x, int) and abs(x) < 2**53:
+        changed[0] = True
+        out = float(x)
+    elif isinstance(x, float) and x in (0.0, 1.0):
+        changed[0] = True
+        out = bool(x)
+    elif isinstance(x, float) and x.is_integer() and abs(x) < 2**53:
+        changed[0] = True
+        out = int(x)
+    elif isinstance(x, dict):
+        out = {k: _retype(v, changed) for k, v in x.items()}
+    elif isinstance(x, list):
+        out = [_retype(v, changed) for v in x]
+    else:
+        out = x
+    if top and not changed[0] and isinstance(out, dict):
+        out = dict(out, flag=1)
+    return out
 
 
 def _check_state(ds, model, events, viols, where):
@@ -186,6 +221,15 @@ def run_case(case, ctx):
                     before = None
                 elif op == "update":
                     f = s["fields"]
+                    if live and s.get("like"):
+                        cur = model[bid]
+                        f = dict(f)
+                        if s["like"] == "same":
+                            f.update({("type_id" if k == "type" else k): copy.deepcopy(cur[k]) for k in ("type", "client", "hostname")})
+                            f["data"] = copy.deepcopy(cur["data"]) or {"flag": 1}
+                        else:
+                            f["data"] = _retype(copy.deepcopy(cur["data"]) or {"flag": 1})
+                        ctx.count(f"updates_that_look_like_no_change.{s['like']}")
                     if live:
                         ds.update_bucket(bid, **copy.deepcopy(f))
                         m = model[bid]
